@@ -27,7 +27,7 @@ func (c20) Cases(tier string) int {
 }
 
 func (c20) Rule() string {
-	return "federations with 35% multi-homed fields and priorities (absent, partial, total, naming unknown services) x queries writing fields plain, inside inline fragments (typed/untyped/nested) and inside named fragments; planning only; every field occurrence of every plan step is checked against the Lean chooser evaluated on the routing table captured through WithPlanner (parent = the location of the enclosing object's step); non-trivial = at least one multi-homed field decided; distinct = distinct (federation, priorities, query)"
+	return "federations with 35% multi-homed fields and priorities (absent, partial, total, naming unknown services; the priorities option given to gateway.New after or before the planner option) x queries writing fields plain, inside inline fragments (typed/untyped/nested) and inside named fragments; planning only; every field occurrence of every plan step is checked against the Lean chooser evaluated on the routing table captured through WithPlanner (parent = the location of the enclosing object's step); non-trivial = at least one multi-homed field decided; distinct = distinct (federation, priorities, query)"
 }
 
 type placedField struct {
@@ -113,7 +113,11 @@ func (c20) Run(c *Ctx, i int) CaseResult {
 				p = append(p, p[r.Intn(len(p)-1)])
 			}
 			in.Spec.Priorities = p
+			in.Spec.PrioritiesFirst = r.Intn(2) == 0
 			feats["priorities"] = true
+			if in.Spec.PrioritiesFirst {
+				feats["priorities-option-before-planner-option"] = true
+			}
 		}
 		id = fmt.Sprintf("gen:%d", i)
 	}
